@@ -37,7 +37,12 @@ Multi == <<
   "(trace! (try (nth [1] 5) (catch e (str e))))",
   "(def h (fn [a] (undefined-sym a))) (trace! (try (h 1) (catch e (pr-str e))))",
   "(trace! (try (throw \"boom\") (catch e (str e \"!\"))))",
-  "(trace! (try (let [q 1] (+ q \"s\")) (catch e (str e))))" >>
+  "(trace! (try (let [q 1] (+ q \"s\")) (catch e (str e))))",
+  \* metadata on a list a macro generates below the top of its expansion
+  "(defmacro tagged (fn [& xs] (list 'quote (with-meta (apply list xs) {:tag \"g\"})))) (trace! (meta (tagged 1 2 3))) (trace! (tagged 4))",
+  \* a string holding a TAB and a string holding a carriage return (as characters, not escapes)
+  "(def row \"id\tname\") (trace! row) (trace! (count (split row \"\t\")))",
+  "(def cr \"a\rb\") (trace! cr) (trace! [cr {:k cr}])" >>
 
 CtxForms == C01CtxForms
 G == C01G
